@@ -36,7 +36,7 @@ func init() {
 				}
 				return len(c01Paths3())
 			}, Run: func(c *Case) { c01Exhaustive(c, c01Paths3()[c.Index]) }},
-			{Name: "rand", N: tierN(30000, 500000), Run: c01Random},
+			{Name: "rand", N: tierN(30000, 2000000), Run: c01Random},
 		},
 	})
 }
